@@ -799,7 +799,11 @@ func (h *c03Harness) execAddr(line string, w []string) {
 				optJSON += fmt.Sprintf(`,"until":"%s"`, g.String())
 			}
 		}
-		want := h.expectedGsfa(pk, limit, before, until)
+		eff := limit
+		if eff <= 0 || eff > 1000 {
+			eff = 1000 // what the request parser does with a limit outside 1..1000
+		}
+		want := h.expectedGsfa(pk, eff, before, until)
 		var got []solana.Signature
 		out := zz.Guard(func() string {
 			body := fmt.Sprintf(`{"jsonrpc":"2.0","id":1,"method":"getSignaturesForAddress","params":["%s",{"limit":%d%s}]}`, pk.String(), limit, optJSON)
